@@ -53,8 +53,12 @@ func main() {
 		onlyMut  = flag.String("mutant", "", "internal: evaluate one mutant (prop:name) against -repo and print the fired keys")
 		onePatch = flag.String("patch", "", "internal: apply the patch file to a scratch copy of -repo, run -prop, print the fired keys")
 	)
+	errSurvey := flag.Bool("errsurvey", false, "internal: list the error-flow verdict of every error-returning call in the files given as arguments")
 	explain := flag.Bool("explain", false, "print {id: explanation} of every implemented property as JSON")
 	flag.Parse()
+	if *errSurvey {
+		os.Exit(runErrSurvey(*repo, flag.Args()))
+	}
 	if *explain {
 		m := map[string]string{}
 		for id, p := range props {
